@@ -54,7 +54,14 @@ def run(ck, pid=PID, level="cache", props=PROPS):
     # 2. scripts: probes (canned in quick, re-derived by TLC in thorough) + simulated behaviours
     scripts = []
     for name in probes:
-        scripts.append(su.derive_probe(ck, su.PROBE_CFG[name], name) if thorough else su.probe(name))
+        if thorough:
+            try:
+                scripts.append(su.derive_probe(ck, su.PROBE_CFG[name], name, timeout=1500))
+                ck.add("probes_rederived_by_tlc")
+                continue
+            except vkit.Infra as e:   # TLC died / timed out on the shared machine: use the recorded counterexample
+                ck.notes.append("probe %s not re-derived (%s), canned counterexample used" % (name, str(e)[:120]))
+        scripts.append(su.probe(name))
     c = su.cfg_constants(gen_cfg)
     depth = int(c["GenLen"]) + 1
     for s in range(4 if thorough else 1):
